@@ -89,6 +89,17 @@ def models(rng):
     for k in range(2):
         m += ["body name=f%d pos=%g,-1,0.21" % (k, 0.9 * k), "joint body=f%d type=0" % k, "geom body=f%d type=2 size=0.2" % k]
     out.append(("arms", m, [("qvel", "0.5,-0.4,0.3,0.2,-0.6,0.1"), ("ctrl", "0.3,-0.2,0.1")]))
+    # 4. penetrating ellipsoid pairs (general convex collider with per-thread scratch buffers); npairs chosen so that the
+    #    narrow phase has at least 2 chunks but fewer chunks than pool threads for some pool sizes
+    for npair in (20, 40):
+        m = ["option timestep=0.002 gravity=0,0,0"]
+        for k in range(npair):
+            x, y = 3.0 * (k % 8), 3.0 * (k // 8)
+            m += ["body name=ea%d pos=%g,%g,1" % (k, x, y), "joint body=ea%d type=0" % k,
+                  "geom body=ea%d type=4 size=0.4,0.3,0.2" % k,
+                  "body name=eb%d pos=%g,%g,1.25" % (k, x + 0.1, y), "joint body=eb%d type=0" % k,
+                  "geom body=eb%d type=4 size=0.3,0.4,0.2" % k]
+        out.append(("ellipsoids%d" % npair, m, []))
     return out
 
 
@@ -138,7 +149,16 @@ def run(ctx):
                         combos.append((name, m, sets, solver, cone, mode, nth, rng.randrange(1, 10 ** 9)))
     if ctx.quick:
         rng.shuffle(combos)
-        combos = combos[:90]
+        keep = [c for c in combos if not c[0].startswith("ellipsoids")][:80]
+        # the convex-collider models always run, with the larger pools
+        ell = [c for c in combos if c[0].startswith("ellipsoids") and c[3] == 2 and c[5] == "step"]
+        seen = set()
+        for c in ell:
+            if (c[0], c[4]) not in seen:
+                seen.add((c[0], c[4]))
+                for nth in (3, 4):
+                    keep.append(c[:6] + (nth, c[7] + nth))
+        combos = keep
 
     def inp_of(c, reps=None):
         name, m, sets, solver, cone, mode, nth, seed = c
